@@ -207,3 +207,47 @@ func Harness_C10_AliasedSlices() {
 	c10Check(u, v, c10SameInts(x, y), "union cases holding two windows of one array")
 	verifCover("end")
 }
+
+// slices of strings (the element type the compiler itself compares most):
+// nil / non-nil empty / one or two one-byte strings, bare and nested
+func c10StrSlice(tag string) []string {
+	n := verifChoice(tag+".len", 3)
+	var elems []string
+	for k := 0; k < n; k++ {
+		elems = append(elems, symBuf(tag+itoaV(k), 1))
+	}
+	if verifChoice(tag+".producer", 2) == 0 {
+		var r []string
+		for _, e := range elems {
+			r = append(r, e)
+		}
+		return r
+	}
+	return append([]string{}, elems...)
+}
+
+func c10SameStrs(a, b []string) bool {
+	if len(a) != len(b) {
+		return false
+	}
+	for i := range a {
+		if a[i] != b[i] {
+			return false
+		}
+	}
+	return true
+}
+
+type c10RecS struct {
+	Name  string
+	Items []string
+}
+
+func Harness_C10_StringSlices() {
+	x, y := c10StrSlice("x"), c10StrSlice("y")
+	c10Check(x, y, c10SameStrs(x, y), "slice of strings")
+	c10Check(NewTuple2(1, x), NewTuple2(1, y), c10SameStrs(x, y), "tuple holding a slice of strings")
+	c10Check(c10RecS{"n", x}, c10RecS{"n", y}, c10SameStrs(x, y), "record holding a slice of strings")
+	c10Check([][]string{x}, [][]string{y}, c10SameStrs(x, y), "slice of slices of strings")
+	verifCover("end")
+}
